@@ -14,6 +14,8 @@ use vh::*;
 mod ownable_ex;
 #[path = "/repo/examples/nft-access-control/src/contract.rs"]
 mod ac_ex;
+#[path = "/repo/examples/fungible-allowlist/src/contract.rs"]
+mod al_ex;
 
 type V<T> = std::vec::Vec<T>;
 type S = std::string::String;
@@ -37,7 +39,7 @@ enum Call {
     MultiRoleAuthAction(usize, V<usize>),
     Burn(usize, u32, V<usize>),
     BurnFrom(usize, usize, u32, V<usize>),
-    Approve(usize, usize, u32, V<usize>),
+    Approve(usize, usize, u32, u32, V<usize>),
     Advance(u32),
 }
 
@@ -49,39 +51,53 @@ struct World {
     ntok: u32,
     now: u32,
     start: u32,
+    min_ttl: u32,
     max_ttl: u32,
     items: V<S>,
     obs0: S,
+    dead: bool,   // the constructor trapped: the trace is one impossible initial observation
 }
 
 struct Snap { admin: Option<usize>, pending: Option<(usize, u32)>, role_admin: V<Option<usize>>, count: V<u32>, has: V<V<Option<u32>>>, members: V<V<Option<usize>>>, tokens: V<Option<usize>>, approved: V<Option<usize>> }
 
 impl World {
-    fn new(naddr: usize, role_names: &[S], ntok: u32, start: u32, max_ttl: u32) -> World {
+    fn new(naddr: usize, role_names: &[S], ntok: u32, start: u32, max_ttl: u32) -> World { World::new_cfg(naddr, role_names, ntok, start, 1, max_ttl, std::cmp::min(max_ttl, 4096)) }
+    fn new_cfg(naddr: usize, role_names: &[S], ntok: u32, start: u32, min_ttl: u32, max_ttl: u32, min_persist: u32) -> World {
         let e = Env::default();
         e.cost_estimate().budget().reset_unlimited();
         e.cost_estimate().disable_resource_limits();
         e.ledger().with_mut(|l| {
             l.sequence_number = start;
-            l.min_temp_entry_ttl = 1;
+            l.min_temp_entry_ttl = min_ttl;
             l.max_entry_ttl = max_ttl;
-            l.min_persistent_entry_ttl = std::cmp::min(max_ttl, 4096);
+            l.min_persistent_entry_ttl = min_persist;
         });
         let addrs: V<Address> = (0..naddr).map(|_| Address::generate(&e)).collect();
         let roles: V<Symbol> = role_names.iter().map(|s| Symbol::new(&e, s)).collect();
-        let cid = e.register(
+        let reg = std::panic::catch_unwind(std::panic::AssertUnwindSafe(|| e.register(
             ac_ex::ExampleContract,
             (String::from_str(&e, "u"), String::from_str(&e, "n"), String::from_str(&e, "s"), addrs[0].clone()),
-        );
-        let mut w = World { e, cid, addrs, roles, ntok, now: start, start, max_ttl, items: vec![], obs0: S::new() };
-        w.obs0 = w.obs();
-        w
+        )));
+        match reg {
+            Ok(cid) => {
+                let mut w = World { e, cid, addrs, roles, ntok, now: start, start, min_ttl, max_ttl, items: vec![], obs0: S::new(), dead: false };
+                w.obs0 = w.obs();
+                w
+            }
+            Err(_) => {
+                let e = Env::default(); let cid = Address::generate(&e);
+                let addrs: V<Address> = (0..naddr).map(|_| Address::generate(&e)).collect();
+                let roles: V<Symbol> = role_names.iter().map(|s| Symbol::new(&e, s)).collect();
+                World { e, cid, addrs, roles, ntok, now: start, start, min_ttl, max_ttl, items: vec![],
+                        obs0: "(Build_aobs (Some 998%N) None [] [998%N] [] [])".to_string(), dead: true }
+            }
+        }
     }
     fn client(&self) -> ac_ex::ExampleContractClient<'_> { ac_ex::ExampleContractClient::new(&self.e, &self.cid) }
     fn idx(&self, a: &Address) -> usize { self.addrs.iter().position(|x| x == a).unwrap_or(999) }
     fn ridx(&self, s: &Symbol) -> usize { self.roles.iter().position(|x| x == s).unwrap_or(999) }
     fn header(&self) -> S {
-        format!("(Build_aheader 1 {} {} (Some {}) {} {} {} (Build_universe {} {} {}))", self.max_ttl, self.start, n(0), n(MAX_ROLES as u64), n(0), n(1),
+        format!("(Build_aheader {} {} {} (Some {}) {} {} {} (Build_universe {} {} {}))", self.min_ttl, self.max_ttl, self.start, n(0), n(MAX_ROLES as u64), n(0), n(1),
                 list(&(0..self.addrs.len()).map(|i| n(i as u64)).collect::<V<_>>()),
                 list(&(0..self.roles.len()).map(|i| n(i as u64)).collect::<V<_>>()),
                 list(&(0..self.ntok).map(|i| n(i as u64)).collect::<V<_>>()))
@@ -89,25 +105,26 @@ impl World {
     fn snap(&self) -> Snap {
         let c = self.client();
         let e = &self.e;
-        let admin = c.get_admin().map(|a| self.idx(&a));
-        let pending: Option<(Address, u32)> = e.as_contract(&self.cid, || {
+        // every read goes through try_: a trapping getter becomes a sentinel (998 / 999999) that diff and monitor flag
+        let admin = match c.try_get_admin() { Ok(Ok(a)) => a.map(|a| self.idx(&a)), _ => Some(998) };
+        let pending: Option<(Address, u32)> = std::panic::catch_unwind(std::panic::AssertUnwindSafe(|| e.as_contract(&self.cid, || {
             let k = AccessControlStorageKey::PendingAdmin;
             e.storage().temporary().get::<_, Address>(&k).map(|a| (a, e.storage().temporary().get_ttl(&k)))
-        });
+        }))).unwrap_or(None);
         let pending = pending.map(|(a, t)| (self.idx(&a), self.now + t));
         let mut role_admin = vec![]; let mut count = vec![]; let mut has = vec![]; let mut members = vec![];
         for r in &self.roles {
-            role_admin.push(c.get_role_admin(r).map(|s| self.ridx(&s)));
-            let k = c.get_role_member_count(r);
-            count.push(k);
-            has.push(self.addrs.iter().map(|a| c.has_role(a, r)).collect());
+            role_admin.push(match c.try_get_role_admin(r) { Ok(Ok(x)) => x.map(|s| self.ridx(&s)), _ => Some(998) });
+            let (k, kshown) = match c.try_get_role_member_count(r) { Ok(Ok(k)) if k < 100_000 => (k, k), _ => (0, 999_999) };
+            count.push(kshown);
+            has.push(self.addrs.iter().map(|a| match c.try_has_role(a, r) { Ok(Ok(x)) => x, _ => Some(999_999) }).collect());
             members.push((0..k + 2).map(|i| match c.try_get_role_member(r, &i) { Ok(Ok(a)) => Some(self.idx(&a)), _ => None }).collect());
         }
         let tokens = (0..self.ntok).map(|t| match c.try_owner_of(&t) { Ok(Ok(a)) => Some(self.idx(&a)), _ => None }).collect();
         let approved = (0..self.ntok).map(|t| match c.try_get_approved(&t) { Ok(Ok(Some(a))) => Some(self.idx(&a)), _ => None }).collect();
         Snap { admin, pending, role_admin, count, has, members, tokens, approved }
     }
-    fn existing(&self) -> V<usize> { self.client().get_existing_roles().iter().map(|s| self.ridx(&s)).collect() }
+    fn existing(&self) -> V<usize> { match self.client().try_get_existing_roles() { Ok(Ok(v)) => v.iter().map(|s| self.ridx(&s)).collect(), _ => vec![998] } }
     fn obs(&self) -> S {
         let s = self.snap();
         let roles: V<S> = (0..self.roles.len()).map(|r| {
@@ -127,6 +144,7 @@ impl World {
         self.e.mock_auths(&mas);
     }
     fn exec(&mut self, out: &mut Out, c: &Call) -> bool {
+        if self.dead { return false; }
         let e = self.e.clone();
         let a = |i: usize| self.addrs[i].clone();
         let r = |i: usize| self.roles[i].clone();
@@ -184,16 +202,15 @@ impl World {
                 self.mock("burn_from", (a(*sp), a(*from), *tok).into_val(&e), au);
                 (format!("BurnFrom {} {} {} {}", n(*sp as u64), n(*from as u64), n(*tok as u64), auths_s(au)), matches!(cl.try_burn_from(&a(*sp), &a(*from), tok), Ok(Ok(()))), "burn_from")
             }
-            Call::Approve(ap, to, tok, au) => {
-                // live_until far beyond the horizon of a trace (the model treats approvals as not expiring)
-                let lu: u32 = self.start + 4000;
-                self.mock("approve", (a(*ap), a(*to), *tok, lu).into_val(&e), au);
-                (format!("Approve {} {} {} {}", n(*ap as u64), n(*to as u64), n(*tok as u64), auths_s(au)), matches!(cl.try_approve(&a(*ap), &a(*to), tok, &lu), Ok(Ok(()))), "approve")
+            Call::Approve(ap, to, tok, lu, au) => {
+                self.mock("approve", (a(*ap), a(*to), *tok, *lu).into_val(&e), au);
+                (format!("Approve {} {} {} {} {}", n(*ap as u64), n(*to as u64), n(*tok as u64), lu, auths_s(au)), matches!(cl.try_approve(&a(*ap), &a(*to), tok, lu), Ok(Ok(()))), "approve")
             }
             Call::Advance(k) => {
                 self.now += *k;
                 let nw = self.now;
                 e.ledger().with_mut(|l| l.sequence_number = nw);
+                if *k >= 17281 { out.label("advance-long/ok"); }
                 (format!("Advance {}", n(*k as u64)), true, "advance")
             }
         };
@@ -203,7 +220,8 @@ impl World {
         ok
     }
     fn flush(self, out: &mut Out, desc: &str) {
-        let nn = self.items.len();
+        if self.dead { out.label("constructor/trap"); }
+        let nn = std::cmp::max(self.items.len(), 1);
         let term = format!("(TAC {} {} {})", self.header(), self.obs0, list(&self.items));
         out.trace(desc, term, nn);
     }
@@ -253,7 +271,9 @@ fn random_ac(out: &mut Out, rng: &mut Rng, len: usize, desc: &str) {
     let naddr = 5usize;
     let nroles = 4usize;
     let names: V<S> = ["minter", "burner", "manager", "auditor"].iter().map(|s| s.to_string()).collect();
-    let mut w = World::new(naddr, &names, 4, 100, 5000);
+    // host configurations: small max_entry_ttl; the test host's defaults; everything long-lived with min_temp_entry_ttl 16
+    let (min_ttl, max_ttl, min_persist) = match rng.below(10) { 0..=2 => (1u32, 5000u32, 4096u32), 3..=6 => (1, 6_312_000, 4096), _ => (16, 8_000_000, 7_999_999) };
+    let mut w = World::new_cfg(naddr, &names, 4, 100, min_ttl, max_ttl, min_persist);
     let mut renounced = false;
     if rng.chance(1, 2) {
         // scaffold: a chain r0 <- r1 <- r2 (<- r0: cycle) of admin roles, one distinct holder per level
@@ -267,6 +287,7 @@ fn random_ac(out: &mut Out, rng: &mut Rng, len: usize, desc: &str) {
         for i in 0..=depth { w.exec(out, &Call::Grant(who[i], rs[i], 0, vec![0])); }
     }
     for step in 0..len {
+        if w.dead { break; }
         let s = w.snap();
         let admin = s.admin;
         let members_of = |r: usize| -> V<usize> { (0..naddr).filter(|&x| s.has[r][x].is_some()).collect() };
@@ -328,8 +349,9 @@ fn random_ac(out: &mut Out, rng: &mut Rng, len: usize, desc: &str) {
                 None => vec![rnd_a],
             };
             Call::RenounceAdmin(au)
-        } else if x < 73 {
-            Call::Advance(match rng.below(3) { 0 => 0, 1 => 1, _ => rng.below(40) as u32 })
+        } else if x < 76 {
+            // the ledger moves on: short steps and very long gaps in ONE step (roles, admins and owners must not lapse)
+            Call::Advance(match rng.below(6) { 0 => 0, 1 => 1, 2 => rng.below(40) as u32, _ => *rng.pick(&[20u32, 100, 17281, 20000, 600000, 1_555_201, 4_000_000]) })
         } else if x < 78 {
             let au = match admin { Some(a) => pick_auths(rng, a, Some(rnd_a), naddr), None => vec![rnd_a] };
             Call::AdminRestricted(au)
@@ -361,7 +383,8 @@ fn random_ac(out: &mut Out, rng: &mut Rng, len: usize, desc: &str) {
                     // approve a spender (preferably a burner-role holder that is not the owner)
                     let burners = members_of(1);
                     let to = if !burners.is_empty() && rng.chance(2, 3) { *rng.pick(&burners) } else { rnd_a };
-                    Call::Approve(from, to, tok, pick_auths(rng, from, Some(to), naddr))
+                    let lu = match rng.below(20) { 0..=11 => w.now + 1 + rng.below(2000) as u32, 12..=14 => w.now + 3_000_000, 15 | 16 => 0, 17 => w.now.saturating_sub(1), 18 => w.now + max_ttl - 1, _ => w.now + max_ttl };
+                    Call::Approve(from, to, tok, lu, pick_auths(rng, from, Some(to), naddr))
                 }
                 _ => {
                     let sp = match appr { Some(ap) if rng.chance(2, 3) => ap, _ => if rng.chance(1, 2) { from } else { rnd_a } };
@@ -377,12 +400,14 @@ fn random_ac(out: &mut Out, rng: &mut Rng, len: usize, desc: &str) {
     w.flush(out, desc);
 }
 
-fn scripted_ac(out: &mut Out, names: &[&str], naddr: usize, calls: &[Call], desc: &str) {
+fn scripted_ac(out: &mut Out, names: &[&str], naddr: usize, calls: &[Call], desc: &str) { scripted_ac_cfg(out, names, naddr, (1, 5000, 4096), calls, desc) }
+fn scripted_ac_cfg(out: &mut Out, names: &[&str], naddr: usize, cfg: (u32, u32, u32), calls: &[Call], desc: &str) {
     let names: V<S> = names.iter().map(|s| s.to_string()).collect();
     let nroles = names.len();
-    let mut w = World::new(naddr, &names, 2, 100, 5000);
+    let mut w = World::new_cfg(naddr, &names, 2, 100, cfg.0, cfg.1, cfg.2);
     let mut renounced = false;
     for c in calls {
+        if w.dead { break; }
         let s = w.snap();
         let extra = classify(&s, c, s.admin, nroles, renounced);
         let ok = w.exec(out, c);
@@ -392,29 +417,184 @@ fn scripted_ac(out: &mut Out, names: &[&str], naddr: usize, calls: &[Call], desc
     w.flush(out, desc);
 }
 
+// ------------------------------------------------------------------ allow-list world (#[only_role(operator, "manager")])
+#[derive(Clone, Debug)]
+enum ACallK { Ac(Call), Allow(usize, usize, V<usize>), Disallow(usize, usize, V<usize>) }
+
+/// examples/fungible-allowlist driven through dynamic invocation (AccessControl entry points + allow/disallow)
+struct AWorld { e: Env, cid: Address, addrs: V<Address>, roles: V<Symbol>, now: u32, start: u32, min_ttl: u32, max_ttl: u32, items: V<S>, obs0: S, dead: bool }
+impl AWorld {
+    fn new(naddr: usize, role_names: &[&str], start: u32, min_ttl: u32, max_ttl: u32, min_persist: u32) -> AWorld {
+        let e = Env::default();
+        e.cost_estimate().budget().reset_unlimited();
+        e.cost_estimate().disable_resource_limits();
+        e.ledger().with_mut(|l| { l.sequence_number = start; l.min_temp_entry_ttl = min_ttl; l.max_entry_ttl = max_ttl; l.min_persistent_entry_ttl = min_persist; });
+        let addrs: V<Address> = (0..naddr).map(|_| Address::generate(&e)).collect();
+        let roles: V<Symbol> = role_names.iter().map(|s| Symbol::new(&e, s)).collect();
+        // admin = account 0, manager = account 1
+        let reg = std::panic::catch_unwind(std::panic::AssertUnwindSafe(|| e.register(
+            al_ex::ExampleContract,
+            (String::from_str(&e, "n"), String::from_str(&e, "s"), addrs[0].clone(), addrs[1].clone(), 1000i128),
+        )));
+        match reg {
+            Ok(cid) => { let mut w = AWorld { e, cid, addrs, roles, now: start, start, min_ttl, max_ttl, items: vec![], obs0: S::new(), dead: false }; w.obs0 = w.obs(); w }
+            Err(_) => { let e = Env::default(); let cid = Address::generate(&e);
+                        AWorld { e, cid, addrs: vec![], roles: vec![], now: start, start, min_ttl, max_ttl, items: vec![],
+                                 obs0: "((Build_aobs (Some 998%N) None [] [998%N] [] []), [])".to_string(), dead: true } }
+        }
+    }
+    fn idx(&self, a: &Address) -> usize { self.addrs.iter().position(|x| x == a).unwrap_or(999) }
+    fn ridx(&self, s: &Symbol) -> usize { self.roles.iter().position(|x| x == s).unwrap_or(999) }
+    /// dynamic call; None = the call failed (trap / error)
+    fn call<T: soroban_sdk::TryFromVal<Env, Val>>(&self, name: &str, args: soroban_sdk::Vec<Val>) -> Option<T> {
+        match self.e.try_invoke_contract::<T, soroban_sdk::Error>(&self.cid, &Symbol::new(&self.e, name), args) { Ok(Ok(v)) => Some(v), _ => None }
+    }
+    fn header(&self, naddr: usize, nroles: usize) -> S {
+        format!("(Build_alheader (Build_aheader {} {} {} (Some {}) {} {} {} (Build_universe {} {} [])) {} {})", self.min_ttl, self.max_ttl, self.start, n(0), n(MAX_ROLES as u64), n(0), n(1),
+                list(&(0..naddr).map(|i| n(i as u64)).collect::<V<_>>()), list(&(0..nroles).map(|i| n(i as u64)).collect::<V<_>>()), n(0), n(1))
+    }
+    fn snap(&self) -> (Snap, V<Option<bool>>) {
+        let e = &self.e;
+        let admin = match self.call::<Option<Address>>("get_admin", ().into_val(e)) { Some(a) => a.map(|a| self.idx(&a)), None => Some(998) };
+        let pending: Option<(Address, u32)> = std::panic::catch_unwind(std::panic::AssertUnwindSafe(|| e.as_contract(&self.cid, || {
+            let k = AccessControlStorageKey::PendingAdmin;
+            e.storage().temporary().get::<_, Address>(&k).map(|a| (a, e.storage().temporary().get_ttl(&k)))
+        }))).unwrap_or(None);
+        let pending = pending.map(|(a, t)| (self.idx(&a), self.now + t));
+        let mut role_admin = vec![]; let mut count = vec![]; let mut has = vec![]; let mut members = vec![];
+        for r in &self.roles {
+            role_admin.push(match self.call::<Option<Symbol>>("get_role_admin", (r.clone(),).into_val(e)) { Some(x) => x.map(|s| self.ridx(&s)), None => Some(998) });
+            let (k, kshown) = match self.call::<u32>("get_role_member_count", (r.clone(),).into_val(e)) { Some(k) if k < 100_000 => (k, k), _ => (0, 999_999) };
+            count.push(kshown);
+            has.push(self.addrs.iter().map(|a| match self.call::<Option<u32>>("has_role", (a.clone(), r.clone()).into_val(e)) { Some(x) => x, None => Some(999_999) }).collect());
+            members.push((0..k + 2).map(|i| self.call::<Address>("get_role_member", (r.clone(), i).into_val(e)).map(|a| self.idx(&a))).collect());
+        }
+        let allowed = self.addrs.iter().map(|a| self.call::<bool>("allowed", (a.clone(),).into_val(e))).collect();
+        (Snap { admin, pending, role_admin, count, has, members, tokens: vec![], approved: vec![] }, allowed)
+    }
+    fn obs(&self) -> S {
+        let (s, allowed) = self.snap();
+        let existing: V<usize> = match self.call::<soroban_sdk::Vec<Symbol>>("get_existing_roles", ().into_val(&self.e)) { Some(v) => v.iter().map(|x| self.ridx(&x)).collect(), None => vec![998] };
+        let roles: V<S> = (0..self.roles.len()).map(|r| {
+            format!("(Build_robs {} {} {} {})", on(s.role_admin[r].map(|x| x as u64)), n(s.count[r] as u64),
+                    list(&s.members[r].iter().map(|m| on(m.map(|x| x as u64))).collect::<V<_>>()),
+                    list(&s.has[r].iter().map(|h| on(h.map(|x| x as u64))).collect::<V<_>>()))
+        }).collect();
+        // a trapping allowed() getter is shown as a list of the wrong length
+        let al: V<S> = if allowed.iter().all(|x| x.is_some()) { allowed.iter().map(|x| b(x.unwrap())).collect() } else { vec![] };
+        format!("((Build_aobs {} {} {} {} [] []), {})", on(s.admin.map(|x| x as u64)),
+                opt(s.pending.map(|(a, l)| pair(&n(a as u64), &z(l as i128)))), list(&roles), list(&existing.iter().map(|r| n(*r as u64)).collect::<V<_>>()), list(&al))
+    }
+    fn mock(&self, fn_name: &str, args: soroban_sdk::Vec<Val>, auths: &[usize]) {
+        let inv = MockAuthInvoke { contract: &self.cid, fn_name, args, sub_invokes: &[] };
+        let mas: V<MockAuth> = auths.iter().map(|&i| MockAuth { address: &self.addrs[i], invoke: &inv }).collect();
+        self.e.mock_auths(&mas);
+    }
+    fn run(&self, name: &str, args: soroban_sdk::Vec<Val>, au: &[usize]) -> bool { self.mock(name, args.clone(), au); self.call::<()>(name, args).is_some() }
+    fn exec(&mut self, out: &mut Out, c: &ACallK) -> bool {
+        if self.dead { return false; }
+        let e = self.e.clone();
+        let a = |i: usize| self.addrs[i].clone();
+        let r = |i: usize| self.roles[i].clone();
+        let (text, ok, label): (S, bool, &str) = match c {
+            ACallK::Ac(Call::Grant(acc, ro, ca, au)) => (format!("ACall (Grant {} {} {} {})", n(*acc as u64), n(*ro as u64), n(*ca as u64), auths_s(au)), self.run("grant_role", (a(*acc), r(*ro), a(*ca)).into_val(&e), au), "al_grant"),
+            ACallK::Ac(Call::Revoke(acc, ro, ca, au)) => (format!("ACall (Revoke {} {} {} {})", n(*acc as u64), n(*ro as u64), n(*ca as u64), auths_s(au)), self.run("revoke_role", (a(*acc), r(*ro), a(*ca)).into_val(&e), au), "al_revoke"),
+            ACallK::Ac(Call::RenounceRole(ro, ca, au)) => (format!("ACall (RenounceRole {} {} {})", n(*ro as u64), n(*ca as u64), auths_s(au)), self.run("renounce_role", (r(*ro), a(*ca)).into_val(&e), au), "al_renounce_role"),
+            ACallK::Ac(Call::SetRoleAdmin(ro, ar, au)) => (format!("ACall (SetRoleAdmin {} {} {})", n(*ro as u64), n(*ar as u64), auths_s(au)), self.run("set_role_admin", (r(*ro), r(*ar)).into_val(&e), au), "al_set_role_admin"),
+            ACallK::Ac(Call::TransferAdmin(new, lu, au)) => (format!("ACall (TransferAdmin {} {} {})", n(*new as u64), lu, auths_s(au)), self.run("transfer_admin_role", (a(*new), *lu).into_val(&e), au), "al_transfer_admin"),
+            ACallK::Ac(Call::AcceptAdmin(au)) => (format!("ACall (AcceptAdmin {})", auths_s(au)), self.run("accept_admin_transfer", ().into_val(&e), au), "al_accept_admin"),
+            ACallK::Ac(Call::RenounceAdmin(au)) => (format!("ACall (RenounceAdmin {})", auths_s(au)), self.run("renounce_admin", ().into_val(&e), au), "al_renounce_admin"),
+            ACallK::Ac(Call::Advance(k)) => { self.now += *k; let nw = self.now; e.ledger().with_mut(|l| l.sequence_number = nw); if *k >= 17281 { out.label("advance-long/ok"); } (format!("ACall (Access.Advance {})", n(*k as u64)), true, "al_advance") }
+            ACallK::Ac(_) => return false,
+            ACallK::Allow(u, op, au) => (format!("AllowUser {} {} {}", n(*u as u64), n(*op as u64), auths_s(au)), self.run("allow_user", (a(*u), a(*op)).into_val(&e), au), "allow_user"),
+            ACallK::Disallow(u, op, au) => (format!("DisallowUser {} {} {}", n(*u as u64), n(*op as u64), auths_s(au)), self.run("disallow_user", (a(*u), a(*op)).into_val(&e), au), "disallow_user"),
+        };
+        self.e.mock_auths(&[]);
+        out.case(&format!("{}/{}", label, if ok { "ok" } else { "fail" }), &format!("{} #{}", text, self.items.len()));
+        self.items.push(format!("({}, {}, {})", text, b(ok), self.obs()));
+        ok
+    }
+    fn flush(self, out: &mut Out, desc: &str, naddr: usize, nroles: usize) {
+        if self.dead { out.label("constructor/trap"); }
+        let nn = std::cmp::max(self.items.len(), 1);
+        let term = format!("(TAllow {} {} {})", self.header(naddr, nroles), self.obs0, list(&self.items));
+        out.trace(desc, term, nn);
+    }
+}
+
+const AL_ROLES: [&str; 3] = ["manager", "auditor", "ops"];
+
+fn random_allow(out: &mut Out, rng: &mut Rng, len: usize, desc: &str) {
+    let naddr = 5usize; let nroles = 3usize;
+    let (min_ttl, max_ttl, min_persist) = match rng.below(3) { 0 => (1u32, 5000u32, 4096u32), 1 => (1, 6_312_000, 4096), _ => (16, 8_000_000, 7_999_999) };
+    let mut w = AWorld::new(naddr, &AL_ROLES, 100, min_ttl, max_ttl, min_persist);
+    for _ in 0..len {
+        if w.dead { break; }
+        let (s, _) = w.snap();
+        let admin = s.admin;
+        let managers: V<usize> = (0..naddr).filter(|&x| s.has[0][x].is_some()).collect();
+        let rnd_a = rng.below(naddr as u64) as usize; let rnd_r = rng.below(nroles as u64) as usize;
+        let x = rng.below(100);
+        let call = if x < 40 {
+            // allow / disallow: by a manager (signed or not), by the admin (not enough), by a stranger
+            let op = match rng.below(10) { 0..=5 => if managers.is_empty() { rnd_a } else { *rng.pick(&managers) }, 6 | 7 => admin.unwrap_or(rnd_a), _ => rnd_a };
+            let au = pick_auths(rng, op, admin, naddr);
+            if rng.chance(3, 5) { ACallK::Allow(rnd_a, op, au) } else { ACallK::Disallow(rnd_a, op, au) }
+        } else if x < 55 {
+            let ca = match rng.below(4) { 0 | 1 => admin.unwrap_or(rnd_a), 2 => if managers.is_empty() { rnd_a } else { *rng.pick(&managers) }, _ => rnd_a };
+            ACallK::Ac(Call::Grant(rnd_a, if rng.chance(2, 3) { 0 } else { rnd_r }, ca, pick_auths(rng, ca, admin, naddr)))
+        } else if x < 68 {
+            let acc = if !managers.is_empty() && rng.chance(3, 4) { *rng.pick(&managers) } else { rnd_a };
+            let ca = match rng.below(4) { 0 | 1 => admin.unwrap_or(rnd_a), _ => rnd_a };
+            ACallK::Ac(Call::Revoke(acc, if rng.chance(3, 4) { 0 } else { rnd_r }, ca, pick_auths(rng, ca, admin, naddr)))
+        } else if x < 74 {
+            let ca = if !managers.is_empty() && rng.chance(3, 4) { *rng.pick(&managers) } else { rnd_a };
+            ACallK::Ac(Call::RenounceRole(0, ca, pick_auths(rng, ca, admin, naddr)))
+        } else if x < 80 {
+            let au = match admin { Some(a) => pick_auths(rng, a, Some(rnd_a), naddr), None => vec![rnd_a] };
+            ACallK::Ac(Call::SetRoleAdmin(rnd_r, rng.below(nroles as u64) as usize, au))
+        } else if x < 84 {
+            let au = match admin { Some(a) => pick_auths(rng, a, Some(rnd_a), naddr), None => vec![rnd_a] };
+            ACallK::Ac(Call::TransferAdmin(rnd_a, w.now + 1 + rng.below(50) as u32, au))
+        } else if x < 87 {
+            ACallK::Ac(Call::AcceptAdmin(pick_auths(rng, s.pending.map(|p| p.0).unwrap_or(rnd_a), admin, naddr)))
+        } else if x < 88 {
+            let au = match admin { Some(a) if rng.chance(1, 3) => vec![a], _ => vec![rnd_a] };
+            ACallK::Ac(Call::RenounceAdmin(au))
+        } else {
+            ACallK::Ac(Call::Advance(match rng.below(5) { 0 => 0, 1 => rng.below(40) as u32, _ => *rng.pick(&[20u32, 100, 17281, 20000, 600000, 1_555_201, 4_000_000]) }))
+        };
+        w.exec(out, &call);
+    }
+    w.flush(out, desc, naddr, nroles);
+}
+
 // ------------------------------------------------------------------ ownable world (#[only_owner])
 #[derive(Clone, Debug)]
 enum OCall { Offer(usize, u32, V<usize>), Accept(V<usize>), Renounce(V<usize>), Guarded(V<usize>), Advance(u32) }
 
-struct OWorld { e: Env, cid: Address, addrs: V<Address>, now: u32, start: u32, items: V<S> }
+struct OWorld { e: Env, cid: Address, addrs: V<Address>, now: u32, start: u32, max_ttl: u32, items: V<S>, dead: bool }
 impl OWorld {
-    fn new(naddr: usize, start: u32) -> OWorld {
+    fn new_cfg(naddr: usize, start: u32, max_ttl: u32, min_persist: u32) -> OWorld {
         let e = Env::default();
         e.cost_estimate().budget().reset_unlimited();
         e.cost_estimate().disable_resource_limits();
-        e.ledger().with_mut(|l| { l.sequence_number = start; l.min_temp_entry_ttl = 1; l.max_entry_ttl = 5000; l.min_persistent_entry_ttl = 4096; });
+        e.ledger().with_mut(|l| { l.sequence_number = start; l.min_temp_entry_ttl = 1; l.max_entry_ttl = max_ttl; l.min_persistent_entry_ttl = min_persist; });
         let addrs: V<Address> = (0..naddr).map(|_| Address::generate(&e)).collect();
-        let cid = e.register(ownable_ex::ExampleContract, (addrs[0].clone(),));
-        OWorld { e, cid, addrs, now: start, start, items: vec![] }
+        match std::panic::catch_unwind(std::panic::AssertUnwindSafe(|| e.register(ownable_ex::ExampleContract, (addrs[0].clone(),)))) {
+            Ok(cid) => OWorld { e, cid, addrs, now: start, start, max_ttl, items: vec![], dead: false },
+            Err(_) => { let e = Env::default(); let cid = Address::generate(&e); OWorld { e, cid, addrs: vec![], now: start, start, max_ttl, items: vec![], dead: true } }
+        }
     }
     fn idx(&self, a: &Address) -> usize { self.addrs.iter().position(|x| x == a).unwrap_or(999) }
-    fn holder(&self) -> Option<usize> { ownable_ex::ExampleContractClient::new(&self.e, &self.cid).get_owner().map(|a| self.idx(&a)) }
+    fn holder(&self) -> Option<usize> { if self.dead { return None; } match ownable_ex::ExampleContractClient::new(&self.e, &self.cid).try_get_owner() { Ok(Ok(h)) => h.map(|a| self.idx(&a)), _ => Some(998) } }
     fn pending(&self) -> Option<(usize, u32)> {
+        if self.dead { return None; }
         let e = &self.e;
-        let r: Option<(Address, u32)> = e.as_contract(&self.cid, || {
+        let r: Option<(Address, u32)> = std::panic::catch_unwind(std::panic::AssertUnwindSafe(|| e.as_contract(&self.cid, || {
             let k = OwnableStorageKey::PendingOwner;
             e.storage().temporary().get::<_, Address>(&k).map(|a| (a, e.storage().temporary().get_ttl(&k)))
-        });
+        }))).unwrap_or(None);
         r.map(|(a, t)| (self.idx(&a), self.now + t))
     }
     fn mock(&self, fn_name: &str, args: soroban_sdk::Vec<Val>, auths: &[usize]) {
@@ -423,6 +603,7 @@ impl OWorld {
         self.e.mock_auths(&mas);
     }
     fn exec(&mut self, out: &mut Out, c: &OCall) -> bool {
+        if self.dead { return false; }
         let e = self.e.clone();
         let cl = ownable_ex::ExampleContractClient::new(&e, &self.cid);
         let (text, res, label): (S, Option<i128>, &str) = match c {
@@ -444,16 +625,18 @@ impl OWorld {
         self.items.push(format!("({}, {}, {})", text, outs, ob));
         res.is_some()
     }
-    fn flush(self, out: &mut Out, desc: &str) {
+    fn flush(mut self, out: &mut Out, desc: &str) {
+        if self.dead { out.label("constructor/trap"); self.items = vec!["(RoleTransfer.Advance 0%N, Fail, (Some 998%N, None))".to_string()]; }
         let nn = self.items.len();
-        let term = format!("(TOwn (C07.Build_header Own 1 5000 {} (Some {})) {})", self.start, n(0), list(&self.items));
+        let term = format!("(TOwn (C07.Build_header Own 1 {} {} (Some {})) {})", self.max_ttl, self.start, n(0), list(&self.items));
         out.trace(desc, term, nn);
     }
 }
 
 fn random_own(out: &mut Out, rng: &mut Rng, len: usize, desc: &str) {
     let naddr = 4usize;
-    let mut w = OWorld::new(naddr, 100);
+    let (max_ttl, min_persist) = match rng.below(3) { 0 => (5000u32, 4096u32), 1 => (6_312_000, 4096), _ => (8_000_000, 7_999_999) };
+    let mut w = OWorld::new_cfg(naddr, 100, max_ttl, min_persist);
     let mut renounced = false;
     for step in 0..len {
         let h = w.holder(); let p = w.pending().map(|x| x.0);
@@ -463,7 +646,7 @@ fn random_own(out: &mut Out, rng: &mut Rng, len: usize, desc: &str) {
         let call = if x < 45 { OCall::Guarded(signer(rng, h)) }
             else if x < 60 { OCall::Offer(rnd, if rng.chance(1, 6) { 0 } else { w.now + rng.below(20) as u32 }, signer(rng, h)) }
             else if x < 75 { OCall::Accept(signer(rng, p.or(Some(rnd)))) }
-            else if x < 85 { OCall::Advance(rng.below(15) as u32) }
+            else if x < 85 { OCall::Advance(if rng.chance(1, 3) { *rng.pick(&[20u32, 100, 17281, 20000, 600000, 4_000_000]) } else { rng.below(15) as u32 }) }
             else { OCall::Renounce(if p.is_some() || step * 2 > len { signer(rng, h) } else { signer(rng, None) }) };
         let is_guard = matches!(call, OCall::Guarded(_));
         let ok = w.exec(out, &call);
@@ -474,7 +657,7 @@ fn random_own(out: &mut Out, rng: &mut Rng, len: usize, desc: &str) {
 }
 
 fn main() {
-    let mut out = Out::new("From SC Require Import Lib.Prelude Lib.Int Lib.Host Model.RoleTransfer Model.Access Run.C07 Run.C06.\nOpen Scope Z_scope.", "check_all");
+    let mut out = Out::new("From SC Require Import Lib.Prelude Lib.Int Lib.Host Model.RoleTransfer Model.Access Model.AllowList Run.C07 Run.C06.\nOpen Scope Z_scope.", "check_all");
     out.per_shard(350);
     let mut rng = Rng::new(out.cfg.seed);
     let thorough = out.cfg.thorough;
@@ -503,8 +686,39 @@ fn main() {
     scripted_ac(&mut out, &std4, 5, &[
         TransferAdmin(1, 150, vec![0]), Grant(2, 0, 1, vec![1]), AcceptAdmin(vec![0]), AcceptAdmin(vec![1]), Grant(2, 0, 0, vec![0]), Grant(2, 0, 1, vec![1]), AdminRestricted(vec![0]), AdminRestricted(vec![1]),
         Mint(2, 0, 2, vec![2]), Mint(2, 1, 2, vec![]), Grant(2, 1, 1, vec![1]), Burn(2, 0, vec![2]), Burn(2, 0, vec![2]), Mint(3, 1, 2, vec![2]), Burn(3, 1, vec![3]), BurnFrom(2, 3, 1, vec![2]), Grant(3, 1, 1, vec![1]), BurnFrom(3, 3, 1, vec![]), BurnFrom(3, 3, 1, vec![3]),
-        Mint(2, 0, 2, vec![2]), Approve(4, 4, 0, vec![4]), Approve(2, 4, 0, vec![]), Approve(2, 4, 0, vec![2]), BurnFrom(4, 2, 0, vec![4]), Grant(4, 1, 1, vec![1]), BurnFrom(4, 2, 0, vec![2]), BurnFrom(4, 2, 0, vec![4]),
-        Mint(4, 1, 2, vec![2]), Approve(4, 3, 1, vec![4]), Revoke(4, 1, 1, vec![1]), BurnFrom(3, 4, 1, vec![3]), Revoke(3, 1, 1, vec![1]), Mint(4, 0, 2, vec![2]), Approve(4, 3, 0, vec![4]), BurnFrom(3, 4, 0, vec![3]), Grant(4, 1, 1, vec![1]), BurnFrom(3, 4, 0, vec![3]), BurnFrom(4, 4, 0, vec![4])], "corpus/admin-handover-and-macros");
+        Mint(2, 0, 2, vec![2]), Approve(4, 4, 0, 4100, vec![4]), Approve(2, 4, 0, 4100, vec![]), Approve(2, 4, 0, 4100, vec![2]), BurnFrom(4, 2, 0, vec![4]), Grant(4, 1, 1, vec![1]), BurnFrom(4, 2, 0, vec![2]), BurnFrom(4, 2, 0, vec![4]),
+        Mint(4, 1, 2, vec![2]), Approve(4, 3, 1, 4100, vec![4]), Revoke(4, 1, 1, vec![1]), BurnFrom(3, 4, 1, vec![3]), Revoke(3, 1, 1, vec![1]), Mint(4, 0, 2, vec![2]), Approve(4, 3, 0, 4100, vec![4]), BurnFrom(3, 4, 0, vec![3]), Grant(4, 1, 1, vec![1]), BurnFrom(3, 4, 0, vec![3]), BurnFrom(4, 4, 0, vec![4])], "corpus/admin-handover-and-macros");
+    // persistence: roles, role admins, admin, enumeration, token owners survive arbitrarily long gaps without being touched
+    // (only the pending admin offer and a token approval are allowed to lapse); two host configurations
+    for cfg in [(1u32, 6_312_000u32, 4096u32), (16, 8_000_000, 7_999_999)] {
+        scripted_ac_cfg(&mut out, &std4, 5, cfg, &[
+            SetRoleAdmin(0, 2, vec![0]), SetRoleAdmin(2, 3, vec![0]), Grant(1, 2, 0, vec![0]), Grant(2, 0, 1, vec![1]), Grant(3, 0, 1, vec![1]), Grant(4, 0, 1, vec![1]), Grant(2, 1, 0, vec![0]),
+            Revoke(2, 0, 1, vec![1]), Mint(2, 0, 3, vec![3]), Approve(2, 4, 0, 2_000_000, vec![2]), TransferAdmin(1, 1_000_000, vec![0]),
+            Advance(20), Advance(100), Advance(17281), Advance(20000), Advance(600_000), AdminRestricted(vec![0]), Grant(4, 2, 0, vec![0]), Advance(1_555_201),
+            AcceptAdmin(vec![1]), Advance(4_000_000), AdminRestricted(vec![0]), Grant(2, 0, 1, vec![1]), Mint(3, 1, 3, vec![3]), MultiRoleAction(2, vec![2]), BurnFrom(4, 2, 0, vec![4]), Burn(2, 0, vec![2]),
+            RenounceRole(2, 4, vec![4]), RenounceAdmin(vec![0]), Advance(4_000_000), AdminRestricted(vec![0]), Grant(0, 0, 1, vec![1]), Revoke(3, 0, 1, vec![1]), Advance(4_000_000), Grant(3, 0, 1, vec![1])], "corpus/long-gaps");
+    }
+    {
+        let mut w = OWorld::new_cfg(4, 100, 6_312_000, 4096);
+        for c in [OCall::Guarded(vec![0]), OCall::Advance(17281), OCall::Guarded(vec![0]), OCall::Advance(4_000_000), OCall::Guarded(vec![0]), OCall::Guarded(vec![1]), OCall::Offer(1, 4_100_000, vec![0]),
+                  OCall::Advance(20_000), OCall::Accept(vec![1]), OCall::Advance(4_000_000), OCall::Guarded(vec![1]), OCall::Guarded(vec![0]), OCall::Renounce(vec![1]), OCall::Advance(4_000_000), OCall::Guarded(vec![1])] { w.exec(&mut out, &c); }
+        w.flush(&mut out, "corpus/own-long-gaps");
+    }
+    // fungible-allowlist: allow / disallow only by an authorised holder of "manager" (granted by the constructor through
+    // grant_role_no_auth with symbol_short!), flags and the role survive long gaps
+    for cfg in [(1u32, 5000u32, 4096u32), (1, 6_312_000, 4096), (16, 8_000_000, 7_999_999)] {
+        let mut w = AWorld::new(5, &AL_ROLES, 100, cfg.0, cfg.1, cfg.2);
+        for c in [ACallK::Allow(2, 0, vec![0]), ACallK::Allow(2, 1, vec![]), ACallK::Allow(2, 1, vec![0]), ACallK::Allow(2, 1, vec![1]), ACallK::Allow(2, 1, vec![1]), ACallK::Allow(3, 1, vec![1]),
+                  ACallK::Disallow(3, 2, vec![2]), ACallK::Disallow(3, 1, vec![1]), ACallK::Disallow(3, 1, vec![1]), ACallK::Ac(Advance(17281)), ACallK::Ac(Advance(4_000_000)),
+                  ACallK::Allow(4, 1, vec![1]), ACallK::Ac(Grant(3, 0, 0, vec![0])), ACallK::Allow(3, 3, vec![3]), ACallK::Ac(Revoke(1, 0, 0, vec![0])), ACallK::Disallow(2, 1, vec![1]), ACallK::Disallow(2, 3, vec![3]),
+                  ACallK::Ac(Advance(4_000_000)), ACallK::Ac(RenounceRole(0, 3, vec![3])), ACallK::Allow(2, 3, vec![3]), ACallK::Ac(Advance(1_555_201)), ACallK::Disallow(0, 0, vec![0])] { w.exec(&mut out, &c); }
+        w.flush(&mut out, "corpus/allowlist", 5, 3);
+    }
+    let nal = (if thorough { 400 } else { 40 }) * out.cfg.scale as usize;
+    for i in 0..nal {
+        let mut r = rng.fork(2_000_000 + i as u64);
+        random_allow(&mut out, &mut r, 35, &format!("random-allow/{}", i));
+    }
     let ntr = (if thorough { 1200 } else { 200 }) * out.cfg.scale as usize;
     for i in 0..ntr {
         let len = if thorough { 50 + rng.below(60) as usize } else { 35 + rng.below(20) as usize };
